@@ -70,6 +70,13 @@ pub fn stake_history(out: &mut crate::Out, tag: &str, seed: u64, net: NetID, sta
         d.block_batches.clear();
         sealed = d.seal_next(Some(true)).unwrap();
     }
+    if net == NetID::Testnet && start_height > 500 {
+        let j = d.w.jump(sealed, 499);
+        d.cur = d.w.next(j);
+        d.block_start = d.cur;
+        d.block_batches.clear();
+        sealed = d.seal_next(Some(true)).unwrap();
+    }
     // go to just below an epoch boundary
     let j = d.w.jump(sealed, start_height);
     d.cur = d.w.next(j);
